@@ -129,7 +129,28 @@ fn gen_c02(rng: &mut Rng, tier: Tier) -> LoopScn {
     s
 }
 
+/// Large counts: sample counts and sample sizes around and beyond 2^16 (a
+/// few hundred thousand events per run, so only a small share of the runs).
+fn gen_c03_large(rng: &mut Rng) -> LoopScn {
+    let mut s = LoopScn::default();
+    s.entry = Entry::Bench;
+    s.threads = rng.range(1, 3) as usize;
+    if rng.chance(2, 3) {
+        s.sample_count = Some(*rng.pick(&[65_535u32, 65_536, 65_537, 65_541, 70_001, 100_003, 131_073]));
+        s.sample_size = Some(1);
+    } else {
+        s.sample_count = Some(rng.range(1, 3) as u32);
+        s.sample_size = Some(*rng.pick(&[65_535u32, 65_536, 65_537, 70_001]));
+        s.threads = rng.range(1, 2) as usize;
+    }
+    s.cost_call = Cost::Const(3);
+    s
+}
+
 fn gen_c03(rng: &mut Rng, tier: Tier) -> LoopScn {
+    if rng.chance(1, 400) {
+        return gen_c03_large(rng);
+    }
     let mut s = LoopScn::default();
     pick_shapes(rng, &mut s);
     let thorough = tier == Tier::Thorough;
@@ -655,6 +676,12 @@ impl Case for LoopScn {
         }
         if self.sample_count.map_or(false, |c| c as usize % self.eff_threads() != 0) {
             h.push("sample_count_not_multiple_of_threads");
+        }
+        if self.sample_count.map_or(false, |c| c > 65_536) {
+            h.push("sample_count_above_65536");
+        }
+        if self.sample_size.map_or(false, |c| c > 65_536) {
+            h.push("sample_size_above_65536");
         }
         if self.min_time.is_some() && self.max_time.is_some() && self.min_time > self.max_time {
             h.push("min_time_above_max_time");
